@@ -147,7 +147,7 @@ PROPS['C11'] = dict(theorems=['ends_only_for_cause', 'end_leaves_registry', 'end
 PROPS['C12'] = dict(theorems=['teardown_spares_new', 'teardown_keeps_records', 'new_session_established', 'every_node_resolves_new', 'displaced_stops_being_served', 'live_session_is_served'],
     level_text='Theorems (node model): tearing down a displaced session changes no session record, publishes no will and closes only its own connection. A CONNECT whose identifier is in use (fresh session id, well-formed strings, node clock above the replaced record stamp, identifier resolving to at most one session before) tombstones the old record, stores the new one, registers the session, writes CONNACK 0, and the identifier resolves to exactly the new session on the serving node and on every node that merges the two broadcasts from an agreeing view (composition with C09); a PINGREQ on a session whose identifier resolves elsewhere or to nothing is answered by closing and nothing else, the live one gets PINGRESP with the state unchanged. Validated end-to-end on 1-3 nodes (chains of connections, gossip orders incl. tombstone-before-creation, same identifier in another mount point).',
     level_note=_E2E_NOTE,
-    families=[_broker([('takeover', 40, 500), ('takeover3', 8, 40)])], rule='takeover: chains of 2-3 connections sharing a client identifier on 1-2 nodes, old sessions ping/subscribe/disconnect/lose the connection, gossip in between; a connection with the same identifier in another mount point.')
+    families=[_broker([('takeover', 40, 500), ('takeover3', 32, 240)])], rule='takeover: chains of 2-3 connections sharing a client identifier on 1-2 nodes, old sessions ping/subscribe/disconnect/lose the connection, gossip in between; a connection with the same identifier in another mount point.')
 PROPS['C13'] = dict(theorems=['will_on_unclean_end', 'no_will_after_disconnect', 'no_will_without_lwt'],
     level_text="Theorems (node model): an unclean end hands exactly the will, under the session's mount point, to the publish path once; after DISCONNECT, for a displaced session, and without a will nothing is published. Host failure (each survivor appends the will under the mount point to its own log) is validated end-to-end on 2-3 nodes with watchers on every node and in another mount point.",
     level_note=_E2E_NOTE,
